@@ -2659,6 +2659,10 @@ def catch(
             allowed_cache_results={CacheResult.SINGLE},
         )
         if cache_type != CacheResult.MISS:
+            # Record dataflow through the cached expression: it is evaluated in place of `expr`
+            # (whose own sub-expressions are then never evaluated).
+            if isinstance(cached_expr, Expression):
+                derive_expression(cached_expr, sexpr)
             return scheduler.evaluate(cached_expr, parent_job=parent_job).catch(promise_catch)
 
     return scheduler.evaluate(expr, parent_job=parent_job).then(on_success, promise_catch)
